@@ -133,6 +133,8 @@ def OPTIONS():
             return "no #line directive of the scanner on standard output refers to the --outfile name (names: %s)" % sorted(names)
         if b"<stdout>" in names:
             return "#line directives name <stdout> although --outfile was given"
+        if _re.search(rb'(?m)^#line 0 ', P.stdout):
+            return "a '#line 0' placeholder of the generated code was not renumbered in the scanner on standard output"
         return None
     add("stdout+outfile", [(["-t", "-oX.c"], []), (["--stdout", "--outfile=X.c"], []), ([], ["stdout", 'outfile="X.c"']), (["-t"], ['outfile="X.c"']),
                            (["-oX.c"], ["stdout"])], p_stdout_outfile)
